@@ -14,13 +14,13 @@ def run(ctx):
     quick = ctx.tier == "quick"
     fc.run_property(ctx, "C01", profiles=["mix", "mix", "waiters"], corpus_props=["C01"],
                     nscripts=400 if quick else 2500,
-                    configs=[(1, 1), (2, 1)] if quick else [(1, 1), (2, 1), (1, 2), (3, 1), (2, 2, 25)],
+                    configs=[(1, 1), (2, 1), (2, 2, 12)] if quick else [(1, 1), (2, 1), (1, 2), (3, 1), (2, 2, 40)],
                     trivial_rule=nontrivial)
     ctx.cov["rule"] = ("scripts of 8-45 FEB calls by 2-8 tasks and 0-2 non-qthread pthreads on 1-3 words, generated against the model's "
                        "current state (would-block / state-flipping / neutral operations, every dest/src aliasing mode, _const and _nb "
                        "spellings, lock/unlock); non-trivial = at least one call blocked and at least one waiter was released")
     ctx.assumptions += ["op-atomic granularity: each API call is one step (the record lock makes it so; lock discipline itself is "
-                        "exercised on 2x2..4x1 configurations but not proved)",
+                        "exercised on 2x1, 2x2, 1x2, 3x1 configurations but not proved)",
                         "micro-step note (DESIGN C01 Extended): writeF/writeFF/readFF/readFF_nb touch *dest with no lock held when "
                         "the record is absent; not modelled"]
 
